@@ -1,5 +1,5 @@
 //! unit: u05c
-//! properties: C05 C10
+//! properties: C05 C10 C01
 //! note: "fully signed newer commitment": the signature checks of ChannelContext::validate_commitment_signed (the only verifier of a peer's commitment_signed: plain, batched splice and initial splice commitments all pass through it)
 //! trusted: R15 (statement slicing): validate_commitment_signed builds bitcoin transactions and sighashes through rust-bitcoin/secp256k1; the unit extracts, on every run, its three checks verbatim - the commitment signature test, the HTLC-signature count test and the per-HTLC signature test inside the zip loop - in their original order; building the transactions, the fee check (validate_update_fee), HolderCommitmentTransaction::new and the signer's validate_holder_commitment are dropped and not claimed; the dropped statements between and after the first check are matched with a capture kind that refuses return / break / continue, so nothing dropped can leave the function or the loop early with Ok
 //! trusted: R15 (statement slicing): revoke_and_ack: the unit extracts the statements from `let secret = ..` to the signer validation (the two acceptance gates), the provide_secret call and the three statements advancing the counterparty's commitment number and points, verbatim and in order; the state pre-checks before them (quiescent / not ready / disconnected / closing: all early Err returns), the signer's validate_counterparty_revocation, the monitor update and the HTLC state walk after them are dropped and not claimed; secp_check!(SecretKey::from_slice(..)) becomes the parameter `secret` (any valid scalar)
@@ -13,6 +13,7 @@
 //! trusted: assume_specification for core::cmp::max / core::cmp::min (std definitions): present in every unit so that a change that introduces them is verified instead of being rejected by the tool
 //! trusted: closed_monitor: ChannelMonitorImpl::no_further_updates_allowed is extracted whole (three-flag skeleton of the monitor); update_monitor: the match that classifies each step of an update as pre-close and the condition of the final refusal are deep R15 slices; ChannelMonitorUpdateStep is re-declared with its eleven variant names and dummy payloads (the source patterns use `{ .. }`); applying the steps is dropped and not claimed
 //! trusted: holder_funding_claim: HolderFundingOutput::get_maybe_signed_commitment_tx: the expression that chooses the holder commitment to sign is sliced; OnchainTxHandler is a two-field skeleton with current_holder_commitment_tx / prev_holder_commitment_tx; signing itself is dropped and not claimed; assume_specification for Option::or (std definition; environment completeness)
+//! trusted: R15 (deep slice): channel_reestablish: the statement `let required_revoke = ..;` verbatim as a function of the message and our commitment number (self is the skeleton {channel_state.in_progress, the three monitor_pending flags}; get_last_revoke_and_ack is a recorder returning an uninterpreted message; the relation between the two numbers established by the stale-state checks before it is the precondition, so the `debug_assert!(false)` of the last arm is proved unreachable)
 use vstd::prelude::*;
 verus! {
 use vstd::std_specs::cmp::*;
@@ -252,6 +253,60 @@ impl ReestChannel {
 //@end
 }
 
+// ---- reconnection: a revoke_and_ack the peer did not get is sent again, now or as soon as the monitor update in flight completes ----
+pub mod reest_resend {
+use vstd::prelude::*;
+use super::{ChannelReestablish, ReestError, Logger};
+pub struct RevokeAndACK { pub id: u64 }
+pub struct PathFn {}
+pub struct ResendState { pub in_progress: bool }
+impl ResendState { #[verifier::external_body] pub fn is_monitor_update_in_progress(&self) -> (r: bool) ensures r == self.in_progress { unimplemented!() } }
+pub struct ResendCtx { pub channel_state: ResendState, pub monitor_pending_revoke_and_ack: bool, pub monitor_pending_commitment_signed: bool, pub monitor_pending_channel_ready: bool }
+// `built_last_raa`: ghost record that get_last_revoke_and_ack was called (it builds the message from the signer, or notes that the signer owes it)
+pub struct ResendChannel { pub context: ResendCtx, pub built_last_raa: Ghost<bool> }
+pub uninterp spec fn last_raa_of(c: ResendChannel) -> Option<RevokeAndACK>;
+impl ResendChannel {
+    #[verifier::external_body] pub fn get_last_revoke_and_ack<L: Logger>(&mut self, path_for_release_htlc: &PathFn, logger: &L) -> (r: Option<RevokeAndACK>)
+        ensures final(self).context == old(self).context, final(self).built_last_raa@, r == last_raa_of(*old(self)) { unimplemented!() }
+//@extract lightning/src/ln/channel.rs :: impl FundedChannel :: fn channel_reestablish
+//@strip msgs
+//@slice R15
+    let required_revoke = $e:any; let is_awaiting_remote_revoke
+//@with
+    fn revoke_and_ack_owed_after_reconnect<L: Logger>(&mut self, msg: &ChannelReestablish, our_commitment_transaction: u64, path_for_release_htlc: &PathFn, logger: &L) -> Result<Option<RevokeAndACK>, ReestError> {
+        let required_revoke = $e;
+        Ok(required_revoke) }
+//@rw R8 *
+    ChannelError::close($m)
+//@with
+    ReestError::close(0)
+//@ret r
+//@requires
+    !old(self).built_last_raa@, our_commitment_transaction < u64::MAX,
+    // established by the stale-state checks above it (reestablish_stale_state_checks): the peer is where we are or one revocation behind
+    msg.next_remote_commitment_number <= our_commitment_transaction <= msg.next_remote_commitment_number + 1,
+//@ensures P C01,C05 a-revocation-the-peer-did-not-get-is-sent-again-now-or-owed-when-the-monitor-update-in-flight-completes
+    final(self).context.channel_state == old(self).context.channel_state,
+    final(self).context.monitor_pending_commitment_signed == old(self).context.monitor_pending_commitment_signed,
+    final(self).context.monitor_pending_channel_ready == old(self).context.monitor_pending_channel_ready,
+    msg.next_remote_commitment_number == our_commitment_transaction ==>
+        r == Ok::<Option<RevokeAndACK>, ReestError>(None) && !final(self).context.monitor_pending_revoke_and_ack && !final(self).built_last_raa@,
+    msg.next_remote_commitment_number + 1 == our_commitment_transaction && old(self).context.channel_state.in_progress ==>
+        r == Ok::<Option<RevokeAndACK>, ReestError>(None) && final(self).context.monitor_pending_revoke_and_ack && !final(self).built_last_raa@,
+    msg.next_remote_commitment_number + 1 == our_commitment_transaction && !old(self).context.channel_state.in_progress ==>
+        r == Ok::<Option<RevokeAndACK>, ReestError>(last_raa_of(*old(self))) && final(self).built_last_raa@
+        && final(self).context.monitor_pending_revoke_and_ack == old(self).context.monitor_pending_revoke_and_ack,
+//@mutant lost_revocation_forgotten_while_a_monitor_update_is_in_flight
+    self.context.monitor_pending_revoke_and_ack = true;
+//@with
+    self.context.monitor_pending_commitment_signed = true;
+//@mutant lost_revocation_sent_past_a_monitor_update_in_flight
+    if self.context.channel_state.is_monitor_update_in_progress() { self.context.monitor_pending_revoke_and_ack = true;
+//@with
+    if false && self.context.channel_state.is_monitor_update_in_progress() { self.context.monitor_pending_revoke_and_ack = true;
+//@end
+}
+}
 // ---- restart: a channel whose manager state is older than its monitor is never resumed (deep R15 slice of ChannelManager::from_channel_manager_data) ----
 // commitment numbers count down from 2^48 - 1: a larger number is an older state
 pub struct RestartChanCtx { pub latest_monitor_update_id: u64 }
